@@ -275,7 +275,44 @@ def collection_stream(ctx, n):
             ctx.disagree("C16:polygon-collection", desc, [s[1] for s in singles], r[1:3], replay=[desc])
 
 
+def moved_stream(ctx, n):
+    """a polygon of space obtained by moving another one (translation out of its plane, rotation): membership must follow the
+    moved vertices (cached supporting plane / edges)"""
+    import geometer as g
+    rng = ctx.rng
+    for k in range(n):
+        w, h = rng.randint(1, 4), rng.randint(1, 4)
+        z0 = rng.randint(-2, 2)
+        base = g.Polygon(g.Point(0.0, 0.0, float(z0)), g.Point(float(w), 0.0, float(z0)), g.Point(float(w), float(h), float(z0)), g.Point(0.0, float(h), float(z0)))
+        shift = [float(rng.randint(-3, 3)), float(rng.randint(-3, 3)), float(rng.choice([-3, -2, 2, 3, 5]))]
+        how = rng.choice(["translation", "plus-point", "rotation"])
+        if how == "translation":
+            moved = call_impl(lambda: g.translation(*shift) * base)
+            img = lambda x, y: [x + shift[0], y + shift[1], z0 + shift[2]]
+        elif how == "plus-point":
+            moved = call_impl(lambda: base + g.Point(*shift))
+            img = lambda x, y: [x + shift[0], y + shift[1], z0 + shift[2]]
+        else:
+            # quarter turn about the x-axis through the origin: (x, y, z) -> (x, z, -y) or (x, -z, y); decided from the image of one vertex
+            moved = call_impl(lambda: g.rotation(np.pi / 2, axis=g.Point(1.0, 0.0, 0.0)) * base)
+            v = np.real(np.asarray(moved[1].normalized_array))[2][:3] if moved[0] == "ok" else None
+            sgn = 1.0 if v is not None and abs(v[1] - z0) < 1e-9 and abs(v[2] + h) < 1e-9 else -1.0
+            img = lambda x, y: [x, sgn * z0, -sgn * y]
+        desc = f"moved polygon ({how}) rectangle {w}x{h} at z={z0} shift={shift}"
+        ctx.case(desc)
+        ctx.count(f"moved:{how}")
+        if moved[0] != "ok":
+            ctx.disagree(f"C16:moved:{how}:error", desc, "a polygon", moved[1:3], replay=[desc])
+            continue
+        inside, outside, old = img(w / 2, h / 2), img(w + 1.0, h / 2), [w / 2, h / 2, float(z0)]
+        r = call_impl(lambda: (bool(moved[1].contains(g.Point(*inside))), bool(moved[1].contains(g.Point(*outside))), bool(moved[1].contains(g.Point(*old)))))
+        exp_old = all(abs(a - b) < 1e-9 for a, b in zip(old, inside))
+        if r[0] != "ok" or r[1][0] is not True or r[1][1] is not False or (r[1][2] and not exp_old):
+            ctx.disagree(f"C16:moved:{how}", desc, (True, False, exp_old), r[1:3], replay=[desc])
+
+
 def correspondence(ctx):
+    moved_stream(ctx, ctx.budget(40, 400))
     if ctx.tier == "thorough":
         polygon_stream(ctx, 0, True)
     else:
